@@ -184,6 +184,28 @@ def rule_entry(R):
             where = code.line(off)
         R.ob("entry/%s" % n, ok, msg, where=where)
     R.floor("entry", len(ops), 8, "public async operations")
+    # "every further network operation returns the disconnected error": the LIVE test is the first decision of an operation
+    # that tests it itself -- no other error is built before it (an argument check placed in front of the gate answers a
+    # dead handle with InvalidRequest instead of Disconnected)
+    nfirst = 0
+    for n, (b, code) in sorted(ops.items()):
+        srcs = [src for (src, t, fl) in roles.live_true_edges(f, code)]
+        if not srcs:
+            continue            # the gate lives in a callee whose verdict is handed on
+        nfirst += 1
+        pre = code.reach([0], avoid=srcs)
+        early = []
+        for bb in sorted(pre):
+            if bb in srcs:
+                continue
+            for s_ in code.blocks[bb]["stmts"]:
+                if s_["k"] == "assign" and "agg" in s_["rv"] and (s_["rv"]["agg"].get("adt") or "").endswith("Result") \
+                        and s_["rv"]["agg"].get("variant") == "Err":
+                    early.append(bb)
+        R.ob("entry/first-decision/%s" % n, not early,
+             "Connection::%s decides nothing before its LIVE test: an error built in front of the gate is what a dead handle "
+             "gets instead of Disconnected" % n, where=code.line(early[0]) if early else b.span)
+    R.floor("entry/first-decision", nfirst, 4, "operations with their own LIVE test")
 
     # the dead branch of every LIVE test: no I/O, no state mutation, documented return value
     nsw = 0
